@@ -87,6 +87,15 @@ USES = [
     "use m, only:",
 ]
 
+# several USE statements of one module in one scoping unit (their effects are merged)
+USE_GROUPS = [
+    ["use m, la => aa", "use m, only: bb"],
+    ["use m, only: aa", "use m", "use m, lb => bb"],
+    ["use m, only: aa", "use m, only: bb, lc => aa"],
+    ["use m", "use m, only:", "use m, only: operator(+)"],
+    ["use m, la => aa", "use m, lb => bb", "use m, only: aa"],
+]
+
 SPEC_F08 = [
     "real, codimension[*] :: co1",
     "real, contiguous, pointer :: cptr(:)",
